@@ -23,12 +23,12 @@ COMBOS = {
 TOK = {'R': 'tape_recorder_recordings/', 'F': 'full/', 'M': 'metadata/', '/': '/', 'X': 'unrelated/', 'D1': 'DAY'}
 
 
-def tla_consts(combo, max_saves, put_order='full-first', delete_whole=False):
+def tla_consts(combo, max_saves, put_order='full-first', delete_whole=False, max_resaves=0, rejects=False):
     cd = '(' + ' @@ '.join('"%s" :> [ro |-> %s, transient |-> %s, prefix |-> %s]'
                            % (c, 'TRUE' if ro else 'FALSE', 'TRUE' if tr else 'FALSE', mc.tla(tuple(p)))
                            for c, (ro, tr, p) in sorted(combo.items())) + ')'
     return dict(Cass=set(combo), CassDef=Raw(cd), Cats=Raw('{<<"A">>, <<"A", "B">>}'), MaxSaves=max_saves,
-                PutOrder=put_order, DeleteWhole=delete_whole)
+                MaxResaves=max_resaves, Rejects=rejects, PutOrder=put_order, DeleteWhole=delete_whole)
 
 
 class Replayer(object):
@@ -71,11 +71,15 @@ class Replayer(object):
         def mm(cat, idx, exp, obs, note):
             out.append({'cat': cat, 'step': idx, 'expected': repr(exp)[:500], 'observed': repr(obs)[:500], 'note': note})
         nlog = 0
+        diverged = None  # set once the code legitimately handled a refused put differently from the model (e.g. a retry)
+        self.store.after = lambda op, key: self._check_discoverable(self._cur[0], self._cur[1], mm,
+                                                                      'right after the bucket mutation %s %s' % (op, key))
         for idx, st in enumerate(beh[1:], 1):
             e = st['ev']
             k, c = e['kind'], e['c']
             cas = self.cass.get(c)
             self.store.owner = c
+            self._cur = (idx, st)
             try:
                 if k == 'savebegin':
                     cat = ''.join(e['id'][:list(e['id']).index('/')])
@@ -84,6 +88,16 @@ class Replayer(object):
                     r.add_metadata({'m': 1})
                     self.ids[e['id'][-1]] = r.id
                     self.recs[c] = r
+                elif k == 'resavebegin':
+                    r = cas.get_recording(self.ids[e['id'][-1]])
+                    r.set_data('key2', {'again': idx})
+                    r.add_metadata({'m2': idx})
+                    self.recs[c] = r
+                elif k == 'reject':
+                    if c in self.threads:
+                        self._finish_save(c, crash='reject')
+                    else:
+                        self._rejected_save(c)
                 elif k == 'put1':
                     self._start_save(c)
                 elif k == 'put2':
@@ -123,15 +137,24 @@ class Replayer(object):
                 mm('harness', idx, '', traceback.format_exc()[-800:], repr(ex))
                 break
             # -- compare bucket and mutation log ---------------------------------------------------------
+            # How a refused put is handled is not part of the property (the model abandons the save; retrying it would be
+            # as good): a difference at such a step is drift, and the model's bucket is not compared any further on this
+            # behaviour - the model-independent oracles below (read-only, own prefix, discoverable => fetchable, also
+            # right after every single mutation) keep judging it.
             exp_keys = self.keyset(st['bucket'])
             got_keys = set(self.store.objects)
-            if exp_keys != got_keys:
-                mm('bucket', idx, sorted(exp_keys - got_keys), sorted(got_keys - exp_keys),
-                   'bucket content after %s(%s): missing / unexpected keys' % (k, c))
             model_log = [(l['op'], self.real_key(l['key']), l['c']) for l in st['log']]
             real_log = list(self.store.mutations)
-            if sorted(model_log[nlog:]) != sorted(real_log[nlog:]):
-                mm('mutations', idx, model_log[nlog:], real_log[nlog:], 'bucket mutations made by %s(%s)' % (k, c))
+            differs = exp_keys != got_keys or sorted(model_log[nlog:]) != sorted(real_log[nlog:])
+            if differs and k == 'reject' and diverged is None:
+                diverged = idx
+                mm('after_reject', idx, sorted(exp_keys), sorted(got_keys), 'bucket after a refused put differs from the model (drift)')
+            if diverged is None:
+                if exp_keys != got_keys:
+                    mm('bucket', idx, sorted(exp_keys - got_keys), sorted(got_keys - exp_keys),
+                       'bucket content after %s(%s): missing / unexpected keys' % (k, c))
+                if sorted(model_log[nlog:]) != sorted(real_log[nlog:]):
+                    mm('mutations', idx, model_log[nlog:], real_log[nlog:], 'bucket mutations made by %s(%s)' % (k, c))
             nlog = len(real_log)
             # -- observable statements directly on the real bucket ------------------------------------------
             for m in self.store.mutations:
@@ -142,6 +165,7 @@ class Replayer(object):
                 if not (m[1].startswith(own + 'full/') or m[1].startswith(own + 'metadata/')):
                     mm('confined', idx, own, m, 'mutation outside the cassette\'s own key prefix')
             self._check_discoverable(idx, st, mm)
+        self.store.after = None
         # release anything still blocked
         for c in list(self.threads):
             self._finish_save(c, crash=True)
@@ -171,6 +195,9 @@ class Replayer(object):
                     if box and box[0] == 'crash':
                         from ..fake_boto3 import InjectedCrash
                         raise InjectedCrash('process died before the second bucket mutation')
+                    if box and box[0] == 'reject':
+                        from ..fake_boto3 import service_error
+                        raise service_error()
 
         def work():
             try:
@@ -194,11 +221,31 @@ class Replayer(object):
     def _finish_save(self, c, crash):
         t, ev_second, box = self.threads.pop(c)
         if crash:
-            box.insert(0, 'crash')
+            box.insert(0, 'reject' if crash == 'reject' else 'crash')
         self.store.owner = c
         ev_second.set()
         t.join(20)
         self._gates.pop(c, None)
+
+    def _rejected_save(self, c):
+        """the first put of the save is refused by the bucket"""
+        from ..fake_boto3 import service_error
+        me = threading.current_thread()
+        fired = []
+
+        def gate(op, key):
+            if threading.current_thread() is me and op == 'put' and not fired:
+                fired.append(key)
+                raise service_error()
+        self._gates = getattr(self, '_gates', {})
+        self._gates['rej-' + c] = gate
+        self.store.gate = lambda op, key: [g(op, key) for g in list(self._gates.values())]
+        try:
+            self.cass[c].save_recording(self.recs[c])
+        except Exception:  # noqa  (whether and what the save raises after a refused put is not judged)
+            pass
+        finally:
+            self._gates.pop('rej-' + c, None)
 
     def _start_close(self, c):
         ev_second = threading.Event()
@@ -238,9 +285,10 @@ class Replayer(object):
         t.join(20)
         self._gates.pop('close-' + c, None)
 
-    def _check_discoverable(self, idx, st, mm):
+    def _check_discoverable(self, idx, st, mm, when='after the step'):
         from ..fake_boto3 import make_s3_cassette
         gate, self.store.gate = self.store.gate, None
+        after, self.store.after = self.store.after, None
         try:
             for c, (ro, tr, p) in self.combo.items():
                 if any(st['closing'][d] != 'no' for d, (_r, _t, p2) in self.combo.items() if p2 == p):
@@ -259,11 +307,12 @@ class Replayer(object):
                             reader.get_recording_metadata(rid)
                         except Exception as ex:  # noqa
                             mm('discoverable', idx, 'fetchable', repr(ex),
-                               'recording %s is discoverable through prefix %r but not fetchable' % (rid, p))
+                               'recording %s is discoverable through prefix %r but not fetchable (%s)' % (rid, p, when))
                 if len(self.store.mutations) != n0:
                     mm('readonly', idx, [], self.store.mutations[n0:], 'lookup / fetch mutated the bucket')
         finally:
             self.store.gate = gate
+            self.store.after = after
 
 
 _G = {}
@@ -297,8 +346,9 @@ def run(rep, tier, seed):
                 'crash, a close or a read-only attempt; distinct = event sequence')
     rep.assumptions = ['fake bucket fidelity (prefix listing in key order, delete of listed keys)',
                        'a key prefix literally named "full" or "metadata" is outside the universe']
-    max_saves = 2 if tier == 'quick' else 3
-    cap = 2000 if tier == 'quick' else 120000
+    # (saves, re-saves of a stored recording, may the bucket refuse a put?)
+    variants = [(2, 1, True)] if tier == 'quick' else [(3, 0, False), (2, 2, True)]
+    cap = 700 if tier == 'quick' else 100000
     rnd = random.Random(seed + 15)
     all_exh = True
     with tlc.Scratch() as s:
@@ -311,11 +361,11 @@ def run(rep, tier, seed):
             rep.extra.setdefault('design_counterexamples', []).append({'variant': bad, 'tlc_violation': r.violation})
             if r.violation is None:
                 raise tlc.TLCError('the design variant %r should violate an invariant' % bad)
-        for name, combo in sorted(COMBOS.items()):
-            mod = 'MC_C15_%s' % name
-            mc.write_mc(s, 'S3Bucket', mod, tla_consts(combo, max_saves), invariants=INVS)
+        for (max_saves, max_resaves, rejects), (name, combo) in [(v, c) for v in variants for c in sorted(COMBOS.items())]:
+            mod = 'MC_C15_%s_%d%d' % (name, max_saves, max_resaves)
+            mc.write_mc(s, 'S3Bucket', mod, tla_consts(combo, max_saves, max_resaves=max_resaves, rejects=rejects), invariants=INVS)
             r, g = tlc.dump_graph(s, mod, mod + '.cfg', max_states=900000)
-            rep.add_tlc(name, r, obligations=INVS)
+            rep.add_tlc('%s (saves<=%d, re-saves<=%d, refused puts: %s)' % (name, max_saves, max_resaves, rejects), r, obligations=INVS)
             if r.violation:
                 rep.violation({'summary': 'TLC: %s violated on S3Bucket combination %s' % (r.violation, name),
                                'signature': 'tlc:%s:%s' % (name, r.violation)})
@@ -326,9 +376,13 @@ def run(rep, tier, seed):
             else:
                 all_exh = False
                 paths = g.edge_cover_paths(rnd)
-                if len(paths) > 2 * cap:
+                if len(paths) > cap:
+                    # keep the cover's paths that contain the rarer actions first
+                    rare = {'Reject', 'ResaveBegin', 'Crash'}
+                    lab = {(a, b): l for a, out in g.succ.items() for l, b in out}   # action names from the dump
                     rnd.shuffle(paths)
-                    paths = paths[:2 * cap]
+                    paths.sort(key=lambda p: -len(rare & set(lab.get(e) for e in zip(p, p[1:]))))
+                    paths = paths[:cap]
                 seen = set(map(tuple, paths))
                 while len(paths) < cap:
                     p = tuple(g.random_path(rnd))
@@ -338,8 +392,8 @@ def run(rep, tier, seed):
             rep.extra.setdefault('generating', []).append({'combination': name, 'cassettes': {k: list(v) for k, v in combo.items()},
                                                            'graph_states': len(g.states), 'complete_paths': total,
                                                            'paths_replayed': len(paths)})
-            _G[name] = g
-            tasks = [(name, combo, paths[i:i + 40]) for i in range(0, len(paths), 40)]
+            _G[mod] = g
+            tasks = [(mod, combo, paths[i:i + 40]) for i in range(0, len(paths), 40)]
             ctx = mp.get_context('fork')
             with ctx.Pool(min(tlc.NCPU, max(1, len(tasks)))) as pool:
                 for nm, res in pool.imap_unordered(_work, tasks):
@@ -349,9 +403,9 @@ def run(rep, tier, seed):
                         kinds = [k for k, _c in rr['summary']]
                         for k in kinds:
                             rep.count_action(k)
-                        rep.note_behaviour((nm, rr['summary']), bool(set(kinds) & {'crash', 'closedel', 'closenoop', 'roattempt'}))
+                        rep.note_behaviour((nm, rr['summary']), bool(set(kinds) & {'crash', 'closedel', 'closenoop', 'roattempt', 'reject', 'resavebegin'}))
                         if len(rep.samples) < 3 and 'crash' in kinds:
-                            rep.sample({'combination': nm, 'behaviour': rr['summary']})
+                            rep.sample({'combination': name, 'behaviour': rr['summary']})
                         harness = [m for m in rr['mm'] if m['cat'] == 'harness']
                         if harness:
                             raise RuntimeError('harness failure: %s' % harness[0]['observed'])
@@ -360,9 +414,9 @@ def run(rep, tier, seed):
                             rep.violation({'summary': '[%s] %s: %s (expected %s, observed %s)'
                                                       % (nm, bad[0]['cat'], bad[0]['note'], bad[0]['expected'][:150], bad[0]['observed'][:200]),
                                            'signature': None, 'mismatches': bad[:5]},
-                                          replay={'kind': 's3bucket', 'combination': nm, 'behaviour': rr['beh_json'],
+                                          replay={'kind': 's3bucket', 'combination': name, 'behaviour': rr['beh_json'],
                                                   'summary': rr['summary']})
-            _G[name] = None
+            _G[mod] = None
     rep.exhaustive = all_exh
 
 
